@@ -135,6 +135,9 @@ func (r *Report) Count(name string, n int) { r.counts[name] += n }
 // List appends to a named list shown in evidence (functions analysed, paths, ...).
 func (r *Report) List(name, item string) { r.lists[name] = append(r.lists[name], item) }
 
+// ListLen returns the items recorded under a named list.
+func (r *Report) ListLen(name string) []string { return r.lists[name] }
+
 func (r *Report) Assume(s string) { r.assume = append(r.assume, s) }
 func (r *Report) Note(s string)   { r.notes = append(r.notes, s) }
 
